@@ -122,6 +122,17 @@ def _concat(repo, col):
             okb = bool(gbi) and idx.same_expr(repo, fi, gbi[0].stmt, gbi[0].stmt.value, "[0] * self.ncomp")
         else:
             okb = bool(gbi) and idx.same_expr(repo, fi, gbi[0].stmt, gbi[0].stmt.value, "np.repeat(np.arange(self.total_nbranches), self.ncomp_per_branch).tolist()")
+        if gbi and not okb and cls != "Branch":
+            # repeat(arange(len(C)), C) with C the per-branch counts: the number of branches is the number of counts
+            gv = idx.value_norm(gbi[0].value)
+            if gv.op == "mcall" and gv.name == "repeat":
+                ra = [a_ for a_ in gv.args if a_.op != "free"]
+                npb_ = [s_ for s_ in ex.stores if s_.kind == "attr" and s_.key.name == "ncomp_per_branch" and s_.value is not None]
+                if len(ra) == 2 and ra[0].op == "mcall" and ra[0].name == "arange" and npb_:
+                    n_ = [a_ for a_ in ra[0].args if a_.op != "free"]
+                    cnt = idx.value_norm(npb_[0].value)
+                    is_cnt = lambda t_: t_.key() == cnt.key() or (t_.op == "attr" and t_.name == "ncomp_per_branch")
+                    okb = len(n_) == 1 and n_[0].op == "call" and n_[0].name == "len" and is_cnt(n_[0].args[0]) and is_cnt(ra[1])
         col.check(okb, R, fi, f"{cls}: global_branch_index repeats branch b ncomp[b] times",
                   "np.repeat(arange(nbranches), ncomp_per_branch)", f"global_branch_index is {unparse(gbi[0].stmt.value) if gbi else None}",
                   node=gbi[0].node if gbi else fi.node)
